@@ -592,7 +592,9 @@ struct Value {
             fprintf(stderr, "cannot bech32-decode non-string value\n");
             return;
         }
-        bech32::DecodeResult result = bech32::Decode(str);
+        // (the 90 character limit of BIP173 is one for addresses: bech32-encode / bech32m-encode take up to 10000 bytes, and what
+        // they produce is decoded again)
+        bech32::DecodeResult result = bech32::Decode(str, 17000);
         if (result.encoding == bech32::Encoding::INVALID) {
             fprintf(stderr, "failed to bech32(m)-decode string\n");
             return;
